@@ -3,7 +3,7 @@
    (None = the library rejected the bytes), for ANY list of handlers, any listener interface
    index and any control message.  hdr_preserving is what every built-in plugin handler
    satisfies (proved per plugin in the plugin developments). *)
-From Verif Require Import Base BaseProofs Net Msg4 Server4 Server4Run Server4Proofs Server4Examples.
+From Verif Require Import Base BaseProofs Net Msg4 Chain ChainProofs Server4 Server4Run Server4Proofs Server4Examples.
 Open Scope N_scope.
 
 Theorem reply4_only_to_requests :
